@@ -836,3 +836,31 @@ pub mod verif_hooks_c10 {
     )
   }
 }
+
+/// Verification hook (C11): read access to what the language-server state holds, so that a
+/// walker can enumerate every interned string reachable from it.
+#[cfg(samlang_verif)]
+pub mod verif_hooks_c11 {
+  use crate::server_state::ServerState;
+  use samlang_ast::source::Module;
+  use samlang_checker::type_::{GlobalSignature, Type};
+  use samlang_errors::CompileTimeError;
+  use samlang_heap::ModuleReference;
+  use std::{collections::HashMap, sync::Arc};
+
+  pub fn parsed_modules(state: &ServerState) -> &HashMap<ModuleReference, Module<()>> {
+    &state.parsed_modules
+  }
+
+  pub fn checked_modules(state: &ServerState) -> &HashMap<ModuleReference, Module<Arc<Type>>> {
+    &state.checked_modules
+  }
+
+  pub fn global_cx(state: &ServerState) -> &GlobalSignature {
+    &state.global_cx
+  }
+
+  pub fn errors(state: &ServerState) -> &HashMap<ModuleReference, Vec<CompileTimeError>> {
+    &state.errors
+  }
+}
